@@ -196,7 +196,8 @@ def st_tip906_transition():
                          C("frame", "same_but_coins(*final(next_state), *old(next_state))", "C20")])
 
 def mm_preseal():
-    return dict(requires=[C("inv", "state_inv(state) && pools_ok(state.pools@) && builtins_if_present(state)")],
+    return dict(requires=[C("inv", "state_inv(state) && pools_ok(state.pools@) && builtins_if_present(state)"),
+                          C("env", "seal_env(state)", note="C09 envelope of the settlement phases (lemmas/mint.rs: seal_env)")],
                 ensures=[C("det", "res == spec_preseal(state)", det=True),
                          C("frame", "pool_phase_frame(state, res) && res.fee_pool == state.fee_pool", "C15", "C17", "C05"),
                          C("inv", "state_inv(res)", "C20"),
@@ -209,7 +210,7 @@ def st_tip909():
 def smt_val_iter():
     return dict(ensures=[C("all", "res@.len() == self@.dom().len()", "C16")])
 def st_seal_full():
-    return dict(requires=[C("inv", "state_inv(self) && pools_ok(self.pools@) && builtins_if_present(self)"),
+    return dict(requires=[C("inv", "state_inv(self) && pools_ok(self.pools@) && builtins_if_present(self)"), C("env", "seal_env(self)"),
                           C("fits", "self.tips.0 <= u128::MAX - 0x1_0000_0000_0000_0000_0000_0000_0000u128", note="C09 envelope: pending tips below 2^128 - 2^112")],
                 ensures=[C("det", "res.0 == spec_seal(self, action)", det=True),
                          C("rel", "seal_rel(self, action, res.0) && res.1 == action", "C06", "C05", "C17"),
@@ -311,7 +312,7 @@ def mm_process_swaps():
     d = mm_phase("swaps")
     d["ensures"] = d["ensures"] + [
         C("exact", """exists|reqs: Seq<Transaction>| #[trigger] selected(state.transactions@, reqs, swap_pred(state)) && swap_reqs_ok(state.pools@, state.coins@.coins, reqs)
-               && swaps_done(state.pools@, state.coins@.coins, state.height, reqs, ISet::new(|k: PoolKey| mentions(reqs, k)), res.pools@, res.coins@.coins)""", "C15", "C01", "C16",
+               && swaps_done(state.pools@, state.coins@.coins, state.height, reqs, mentioned_set(reqs), res.pools@, res.coins@.coins)""", "C15", "C01", "C16",
           note="every pool named by a genuine swap request is settled exactly once, at one price for both directions; nothing else moves")]
     return d
 
@@ -339,3 +340,12 @@ def mm_withdrawals_single():
                         final(state).pools@, final(state).coins@.coins, wl, wr)""", "C15", "C16", "C01"),
                  C("frame", "pool_phase_frame(*old(state), *final(state)) && final(state).fee_pool == old(state).fee_pool", "C15", "C17"),
                  C("inv", "final(state).coins.wf() && (spec_tip906(*old(state)) ==> counts_ok(final(state).coins@)) && origin_ok(final(state).coins@.coins) && (!spec_tip906(*old(state)) ==> final(state).coins@.counts == old(state).coins@.counts)", "C20")])
+
+def mm_process_deposits():
+    d = mm_phase("deposits")
+    d["requires"] = d["requires"] + [C("fits", "deposit_weights_fit(state.transactions@)", note="C09 envelope: see deposit_weights_fit")]
+    d["ensures"] = d["ensures"] + [
+        C("exact", """exists|reqs: Seq<Transaction>, mint: spec_fn(PoolKey) -> int| #[trigger] selected(state.transactions@, reqs, deposit_pred(state)) && dep_reqs_ok(state.coins@.coins, reqs)
+               && #[trigger] deps_done(state.pools@, state.coins@.coins, state.height, deposit_legacy(state.network, state.height), reqs, mentioned_set(reqs), mint, res.pools@, res.coins@.coins)""", "C15", "C01", "C16",
+          note="every pool named by a genuine deposit request is settled exactly once; liquidity handed out never exceeds what the pool records")]
+    return d
